@@ -246,6 +246,128 @@ def run_notlast(ck, c, g, arr, elems, collect):
             collect[(dest, agg)] = (tuple(r.dims), np.asarray(r.values), spec_ok)
 
 
+# ---------------------------------------------------------------------------------------------
+# histories across derived grids: aggregate on the parent, then on subsets / copies / duals made afterwards (and the
+# other way round); every result is compared with the per-element reference ON THE DERIVED GRID
+
+DERIVE_KINDS = ["isel_face", "isel_node", "isel_edge", "subset_nn_nodes", "subset_nn_faces", "subset_circle", "copy", "dual"]
+DERIVED_STATS = {}
+
+
+def check_uxda(ck, c, X, stage, aggs, dtype, special=False):
+    """all clauses of a valid call on any node-centred UxDataArray X (node dimension last), reference taken from
+    X.uxgrid's own connectivity"""
+    import uxarray as ux
+    gX = X.uxgrid
+    arr = np.asarray(X.values)
+    faces = [[x for x in r if x != FILL] for r in gX.face_node_connectivity.values.tolist()]
+    edges = [list(e) for e in gX.edge_node_connectivity.values.tolist()]
+    elems = {"face": faces, "edge": edges}
+    lead_dims = tuple(X.dims[:-1])
+    for dest in ("face", "edge"):
+        for agg in aggs:
+            info = dict(info_of(c, agg, dest), layout="derived", stage=stage, derive=c["plan"]["derive"], order=c["plan"]["order"])
+            cc = dict(c, agg=agg, dest=dest, stage=stage)
+            try:
+                r = call(X, agg, dest)
+            except Exception as ex:
+                ck.fail("raises", cc, info, detail="%s: %r" % (stage, ex))
+                continue
+            if not isinstance(r, ux.UxDataArray):
+                ck.fail("type", cc, info, detail=str(type(r)))
+                continue
+            if r.uxgrid is not gX:
+                ck.fail("grid", cc, info, detail="%s: result is attached to another grid object" % stage)
+            if tuple(r.dims) != lead_dims + (DEST_DIM[dest],):
+                ck.fail("dims", cc, info, detail="%s: dims %r" % (stage, tuple(r.dims)))
+                continue
+            if tuple(r.shape) != tuple(arr.shape[:-1]) + (len(elems[dest]),):
+                ck.fail("shape", cc, info, detail="%s: shape %r, %d %ss" % (stage, tuple(r.shape), len(elems[dest]), dest))
+                continue
+            bad = check_values(np.asarray(r.values), arr, elems[dest], agg, dtype, special)
+            if bad:
+                ck.fail("value", cc, info, detail="%s: %s" % (stage, bad))
+            DERIVED_STATS["calls_checked"] = DERIVED_STATS.get("calls_checked", 0) + 1
+
+
+def derive(c, g, uxda, arr_face):
+    """the derived node-centred array (new grid object) of the plan, or None when the derivation is not available"""
+    import uxarray as ux
+    plan = c["plan"]
+    kind, idx = plan["derive"], plan["idx"]
+    lon, lat = np.asarray(g.node_lon.values), np.asarray(g.node_lat.values)
+    with warnings.catch_warnings():
+        warnings.simplefilter("ignore")
+        if kind == "isel_face":
+            return uxda.isel(n_face=[i % g.n_face for i in idx])
+        if kind == "isel_node":
+            return uxda.isel(n_node=[i % g.n_node for i in idx])
+        if kind == "isel_edge":
+            return uxda.isel(n_edge=[i % g.n_edge for i in idx])
+        v = idx[0] % g.n_node
+        centre = (float(lon[v]), float(lat[v]))
+        if kind == "subset_nn_nodes":
+            return uxda.subset.nearest_neighbor(centre, k=min(g.n_node, 1 + len(idx)), element="nodes")
+        if kind == "subset_nn_faces":
+            return uxda.subset.nearest_neighbor(centre, k=min(g.n_face, 1 + len(idx) // 2), element="face centers")
+        if kind == "subset_circle":
+            return uxda.subset.bounding_circle(centre, plan.get("r", 40.0), element="nodes")
+        if kind == "copy":
+            return uxda.copy()
+        if kind == "dual":
+            lead = tuple(np.asarray(uxda.values).shape[:-1])
+            f = ux.UxDataArray(arr_face, dims=list(uxda.dims[:-1]) + ["n_face"], uxgrid=g, name="w")
+            return f.get_dual()
+    raise ValueError(kind)
+
+
+def run_derived(ck, c, g, arr):
+    d = c["data"]
+    plan = c["plan"]
+    uxda = make_uxda(c, g, arr)
+    rs = np.random.RandomState(len(c["table"]) * 7919 + c["n_node"])
+    arr_face = rs.randint(-4000, 4000, size=tuple(arr.shape[:-1]) + (len(c["table"]),)) / 8.0
+    aggs, paggs = plan["aggs"], plan["parent_aggs"]
+
+    def get(stage):
+        try:
+            X = derive(c, g, uxda, arr_face)
+        except Exception as ex:
+            DERIVED_STATS["derivation_raised:" + plan["derive"]] = DERIVED_STATS.get("derivation_raised:" + plan["derive"], 0) + 1
+            return None
+        if X is None or "n_node" not in X.dims or X.dims[-1] != "n_node" or int(X.uxgrid.n_face) == 0:
+            DERIVED_STATS["derivation_unusable"] = DERIVED_STATS.get("derivation_unusable", 0) + 1
+            return None
+        return X
+    dt = "float" if plan["derive"] == "dual" else d["dtype"]
+    sp = False if plan["derive"] == "dual" else d.get("special")
+    if plan["order"] == "parent_first":
+        check_uxda(ck, c, uxda, "parent", paggs, d["dtype"], d.get("special"))
+        X = get("derived after the parent's aggregation")
+        if X is not None:
+            check_uxda(ck, c, X, "%s made after the parent's aggregation" % plan["derive"], aggs, dt, sp)
+            check_uxda(ck, c, uxda, "parent again", paggs[:1], d["dtype"], d.get("special"))
+    else:
+        X = get("derived first")
+        if X is not None:
+            check_uxda(ck, c, X, "%s, aggregated before the parent" % plan["derive"], aggs, dt, sp)
+        check_uxda(ck, c, uxda, "parent after the derived grid's aggregation", paggs, d["dtype"], d.get("special"))
+        if X is not None:
+            check_uxda(ck, c, X, "%s again, after the parent's aggregation" % plan["derive"], aggs[:2], dt, sp)
+        Y = get("derived again")
+        if Y is not None:
+            check_uxda(ck, c, Y, "second %s, made after both aggregations" % plan["derive"], aggs[:2], dt, sp)
+    DERIVED_STATS[plan["derive"] + "/" + plan["order"]] = DERIVED_STATS.get(plan["derive"] + "/" + plan["order"], 0) + 1
+
+
+def gen_plan(rng, n_face):
+    k = rng.randrange(1, 5)
+    return {"derive": rng.choice(DERIVE_KINDS + ["isel_face", "isel_node", "isel_edge"]), "idx": [rng.randrange(0, 10 ** 6) for _ in range(k)],
+            "order": rng.choice(["parent_first", "parent_first", "derived_first"]),
+            "r": rng.choice([15.0, 40.0, 90.0]),
+            "parent_aggs": rng.sample(AGGS, 2), "aggs": rng.sample(AGGS, 4)}
+
+
 def run_errors(ck, c, g, n_edge, collect):
     """unsupported source/destination combinations must raise"""
     import uxarray as ux
@@ -396,6 +518,10 @@ def gen_cases(ck):
         if rng.random() < 0.06:
             c["data"]["dask"] = True
         cases.append(c)
+        if rng.random() < 0.3:             # histories across derived grids
+            dd = gen_data(rng, n, cls=rng.choice(["dyadic", "dyadic", "int", "gauss", "bool"]), lead=rng.choice([(), (2,), (2, 2)]))
+            cases.append({"kind": kind, "table": t, "n_node": n, "lonlat": ll, "data": dd, "mode": "derived",
+                          "plan": gen_plan(rng, len(t))})
         r = rng.random()
         if r < 0.22:                       # node dimension not last
             other = rng.choice([n, n, n + rng.randrange(1, 4), max(1, n - rng.randrange(1, 4)), len(t)])
@@ -470,6 +596,8 @@ def run_case(ck, c, collect_all=None):
     elif c["mode"] == "notlast":
         arr = make_array(c["data"])
         run_notlast(ck, c, g, arr, elems, out["collect"])
+    elif c["mode"] == "derived":
+        run_derived(ck, c, g, make_array(c["data"]))
     else:
         run_errors(ck, c, g, out["n_edge"], out["collect"])
     return out
@@ -679,7 +807,7 @@ def main(ck):
     ck.extra.update({
         "case_kinds": hist, "case_modes": mode_hist, "face_size_histogram": {str(k): v for k, v in sorted(sizes.items())},
         "data_classes": dt_hist, "data_rank_histogram": {str(k): v for k, v in sorted(rank_hist.items())},
-        "aggregations": AGGS, "destinations": ["face", "edge"],
+        "aggregations": AGGS, "destinations": ["face", "edge"], "derived_grid_histories": dict(sorted(DERIVED_STATS.items())),
         "model_vs_impl_comparisons": n_corr, "extraction_audit_cases": audit_n,
         "tolerances": {"exact": "min, max, all, any; median of an odd count (float data, int data below 2^53); sum/prod of int/bool data below 2^53",
                        "otherwise": "|impl - exact| <= 1e-12 * scale (float32 data: 2e-5), scale = max|x| of the "
